@@ -1,14 +1,24 @@
 #!/bin/bash
-# tools/seeded_run.sh <seeded-id> [tier] [checks...]   apply /verif/seeded/<id>/patch.diff to /repo, run the checks, undo.
-# Never commits anything to /repo.  Prints one line per check: <check> exit=<rc> and the VIOLATION lines.
+# tools/seeded_run.sh [--scratch] <seeded-id> [tier] [checks...]
+#   default: apply /verif/seeded/<id>/patch.diff to /repo, run the checks, undo (git checkout -- .).  Never commits anything to /repo.
+#   --scratch: apply it to a scratch worktree of /repo's HEAD under /tmp instead and point the checks at it with VERIF_REPO
+#              (development aid: lets several runs proceed while /repo itself stays untouched); the worktree is removed afterwards.
+scratch=0; if [ "$1" = "--scratch" ]; then scratch=1; shift; fi
 id=$1; tier=${2:-quick}; shift; shift
 d=/verif/seeded/$id
 [ -f $d/patch.diff ] || { echo "no $d/patch.diff"; exit 2; }
-cd /repo
-git diff --quiet || { echo "/repo has uncommitted changes; refusing"; exit 2; }
-git apply $d/patch.diff || { echo "patch does not apply"; exit 2; }
-trap 'git -C /repo checkout -- . ' EXIT
 checks=${@:-$(python3 -c "import json;print(' '.join(json.load(open('$d/meta.json')).get('run_checks',[json.load(open('$d/meta.json'))['property']])))")}
+if [ $scratch = 1 ]; then
+  w=/tmp/verif_scratch_$id_$$; git -C /repo worktree add -q --detach $w HEAD || exit 2
+  trap 'git -C /repo worktree remove --force '$w EXIT
+  git -C $w apply $d/patch.diff || { echo "patch does not apply"; exit 2; }
+  export VERIF_REPO=$w
+else
+  cd /repo
+  git diff --quiet || { echo "/repo has uncommitted changes; refusing"; exit 2; }
+  git apply $d/patch.diff || { echo "patch does not apply"; exit 2; }
+  trap 'git -C /repo checkout -- . ' EXIT
+fi
 cd /verif
 for c in $checks; do
   out=$(./check $c $tier 2>&1); rc=$?
